@@ -13,7 +13,7 @@ STACK_API = ['path:stack::PushStack::*']
 MANIP = ['DUP', 'DDUP', 'POP', 'SWAP', 'ROT', 'YANK', 'YANKDUP', 'SHOVE', 'FLUSH', 'STACKDEPTH']
 STACK_TYPES = ['BOOLEAN', 'INTEGER', 'FLOAT', 'NAME', 'CODE', 'EXEC', 'BOOLVECTOR', 'INTVECTOR', 'FLOATVECTOR']
 C05_NAMES = ['%s.%s' % (t, m) for t in STACK_TYPES for m in MANIP]
-VEC_EXTERNAL_NOTE = ('FLOATVECTOR.SUM / MEAN (f32 iter().sum(): the additive identity and order are std\'s), SORT*ASC/DESC (slice::sort / sort_by) and INTVECTOR.REMOVE (Vec::retain) '
+VEC_EXTERNAL_NOTE = ('FLOATVECTOR.SUM / MEAN (f32 iter().sum(): the additive identity and order are std\'s) and BOOLVECTOR / FLOATVECTOR.SORT*ASC/DESC (sort_by with a closure) '
                      'stay outside Verus: their bodies are external (listed under out_of_reach)')
 
 PROPS = {
@@ -75,9 +75,9 @@ PROPS = {
         label_re=r'^C(09|05|07|06|13|10)',
         explanation='element-wise operations verified (loop invariant) against overlay(second, top, offset, op) of the README; GET/SET clamp; ONES/ZEROS/LENGTH/APPEND/EMPTY/FROMINT/EQUAL/ROTATE/CONTAINS/SET*INSERT/NOT rows; '
                     'through the R9 desugaring of slice-iterator adapters: BOOLVECTOR.COUNT = number of TRUE elements, INTVECTOR.SUM = the wrapping sum, INTVECTOR.MEAN = that sum / length (f32), '
-                    'INTVECTOR.BOOLINDEX = the ascending indices of the TRUE elements, FLOATVECTOR.*SCALAR = element-wise product, BoolVector::from_int_array (no longer trusted); registry binding is part of each unit',
+                    'INTVECTOR.BOOLINDEX = the ascending indices of the TRUE elements, FLOATVECTOR.*SCALAR = element-wise product, INTVECTOR.REMOVE = the other elements in order (Vec::retain), INTVECTOR.SORT*ASC / DESC = an ascending / descending permutation (multiset equal) of the top vector (assumed contract of slice::sort + the i32 axiom), BoolVector::from_int_array (no longer trusted); registry binding is part of each unit',
         not_decided=[VEC_EXTERNAL_NOTE, 'float element values are uninterpreted (which operation on which elements is proved)',
-                     'SORT*ASC/DESC and REMOVE: std sort / Vec::retain did not finish in CBMC within 400 s even for length <= 2: undecided'],
+                     'the real std sort / retain bodies did not finish in CBMC within 400 s even for length <= 2, so the R9 / T-std assumptions about them have no bounded cross-check'],
         thorough=True,
     ),
     'C06': dict(
@@ -161,9 +161,9 @@ PROPS = {
         units=['nameglob:GRAPH.*', 'path:buffer::PushBuffer::*', 'path:graph::Graph::*', 'path:graph::Node::*', 'path:graph::Edge::*'],
         explanation='Graph model (nodes: id -> Node, edges: destination -> incoming edges): wf = every node stored under its id, every edge connects two existing nodes, at most one edge per ordered pair; '
                     'wf is preserved by Graph::new / add_node / add_edge / set_state (proved) and is part of the state invariant every GRAPH.* row re-establishes; add_edge adds the edge exactly when both nodes exist and not twice; '
-                    'get_state / set_state / node_size / get_weight / set_weight against the map model (weight_of = weight of the first incoming edge of the destination that starts at the origin; set_weight changes that edge only and keeps wf -- no longer a trusted contract); GRAPH.EDGE*GETWEIGHT / SETWEIGHT rows with values; GRAPH.NODE*ADD / GETSTATE / SETSTATE / HISTORY / EDGE*ADD rows with values; the graph stack keeps its depth and only the newest graph may change '
+                    'get_state / set_state / node_size / get_weight / set_weight against the map model (weight_of = weight of the first incoming edge of the destination that starts at the origin; set_weight changes that edge only and keeps wf -- no longer a trusted contract; remove_edge leaves exactly the incoming edges of the destination that do not start at the origin, every edge still connects existing nodes -- that it keeps "one edge per ordered pair" is not proved); GRAPH.EDGE*GETWEIGHT / SETWEIGHT rows with values; GRAPH.NODE*ADD / GETSTATE / SETSTATE / HISTORY / EDGE*ADD rows with values; the graph stack keeps its depth and only the newest graph may change '
                     '(older snapshots untouched); DUP pushes a structural copy',
-        not_decided=['remove_node (HashMap::iter_mut), remove_edge (Vec::retain), diff, edge_size, filter results and the neighbour / predecessor / successor queries (HashMap iteration): bodies external or safety-only',
+        not_decided=['remove_node (HashMap::iter_mut), diff, edge_size, filter results and the neighbour / predecessor / successor queries (HashMap iteration): bodies external or safety-only',
                      'the textual diff and GRAPH.EDGE*HISTORY (println!) are external'],
     ),
     'C19': dict(
@@ -172,9 +172,9 @@ PROPS = {
         label_re=r'^C(19|10|15)',
         all_labels_in_scope=True,
         explanation='LIST.REMOVE/GET/BVAL/IVAL/FVAL rows with clamped record address; Item::find == nth_kind (n-th point of the requested kind, depth first from the top), bval/ival/fval return it or the type default; '
-                    'load_items only pops from the typed stacks, at most one item per id, and touches nothing else',
-        not_decided=['the exact item sequence collected by load_items (fold over the id vector) and hence the exact record built by LIST.ADD / LIST.SET: only the frame (only-pops) is proved',
-                     'LIST.GET followed by execution restores the items: follows from LIST.GET\'s row and step\'s list/literal arms (C06), not proved as one lemma'],
+                    'load_items collects EXACTLY the designated items in id-vector order (recursive spec `collect`: one pop from the stack each id names, ids naming an empty or unknown stack are skipped), only pops, at most one item per id; '
+                    'LIST.ADD pushes that record, LIST.SET replaces the record at the clamped address (taken before the items are collected) with it and changes no other CODE item',
+        not_decided=[                     'LIST.GET followed by execution restores the items: follows from LIST.GET\'s row and step\'s list/literal arms (C06), not proved as one lemma'],
     ),
     'C20': dict(
         level='proof',
